@@ -2,10 +2,16 @@
    justification).  Executable only; the theorems are in Proofs/C06Sites.v and Props/C06.v. *)
 From Coq Require Import String Ascii ZArith List Bool.
 Import ListNotations.
-From RV Require Import Model.HashModel Gen.C06Sites Gen.C06BinSites.
+From RV Require Import Model.HashModel Model.C06State Gen.C06Sites Gen.C06BinSites.
 Local Open Scope string_scope.
 
 Definition str_in (s : string) (l : list string) : bool := existsb (String.eqb s) l.
+Definition has_sub (sub s : string) : bool :=
+  (fix go (n : nat) (t : string) : bool :=
+     match n with
+     | O => false
+     | S n' => String.prefix sub t || match t with EmptyString => false | String _ r => go n' r end
+     end) (S (String.length s)) s.
 
 (* Which operation of the container model a Rust method is.  Anything that exposes the physical order
    maps to Iter; anything unknown maps to None (and is rejected).
@@ -50,17 +56,56 @@ Definition ctor_ok (h : hsite) : bool := str_in (hs_method h) ["new"; "with_capa
 Definition mention_ok (s : ssite) : bool :=
   str_in (ss_kind s) ["use"; "alias"; "field"; "param"; "let_annot"; "ctor"].
 
-(* Shared state / ambient inputs.  Allowed kinds:
-     static        immutable `static` of plain data (`static mut` and statics whose type mentions an interior
-                   mutability wrapper are the separate kinds static_mut / static_interior)
-     ptr_identity  Arc::ptr_eq / ptr::eq: equality of addresses, never their order or value
-     Rc            only in resvg/src/filter/mod.rs (filter::Image; Rc is !Send, created and dropped in one `apply`)
-   Everything else the scanner knows (static_mut, static_interior, thread_local, Cell, RefCell, Mutex, RwLock,
-   Atomic, Lazy, unsafe, raw_ptr, env, time, thread, random, read_dir, process) is rejected. *)
-Definition ssite_ok (s : ssite) : bool :=
-  String.eqb (ss_kind s) "static"
-  || String.eqb (ss_kind s) "ptr_identity"
-  || (String.eqb (ss_kind s) "Rc" && String.eqb (ss_file s) "crates/resvg/src/filter/mod.rs").
+(* Shared state / ambient inputs: EVERY entry of the ledger is a cell with a class (Model/C06State.v); the class is the
+   reason why the entry cannot make the output depend on the history or the schedule:
+     static        -> ImmInit    immutable `static` of plain data, const initialiser (`static mut` and statics whose type
+                                 mentions an interior-mutability wrapper are the separate kinds static_mut / static_interior)
+     ptr_identity  -> AddrEq     Arc::ptr_eq / ptr::eq: equality of addresses, never their order or value
+     Rc            -> CallLocal  only in resvg/src/filter/mod.rs (filter::Image; Rc is !Send, created and dropped in one `apply`)
+     fs            -> ExtInput   only usvg's default_string_resolver: the file an <image href> names is part of the input
+   Everything else the scanner knows (static_mut, static_interior, thread_local, Cell, RefCell, Mutex, RwLock, Atomic, Lazy,
+   unsafe, raw_ptr, fmt_ptr, env, time, thread, random, read_dir, process, leak, uninit, alloc) is Mutable = undischarged. *)
+Definition cell_class (s : ssite) : cls :=
+  if String.eqb (ss_kind s) "static" then ImmInit
+  else if String.eqb (ss_kind s) "ptr_identity" then AddrEq
+  else if String.eqb (ss_kind s) "Rc" && String.eqb (ss_file s) "crates/resvg/src/filter/mod.rs" then CallLocal
+  else if String.eqb (ss_kind s) "fs" && String.eqb (ss_file s) "crates/usvg/src/parser/image.rs"
+          && String.eqb (ss_fn s) "default_string_resolver" then ExtInput
+  else Mutable.
+Definition ssite_ok (s : ssite) : bool := discharged (cell_class s).
+Definition ledger_classes : list cls := map cell_class c06_shared_sites.
+
+(* Order of sequences: a Vec is iterated in its own order (a function of how it was built); the only operations that
+   re-establish an order are listed in c06_order_sites.  Stable sorts / dedup / binary_search are functions of the
+   sequence (Proofs/C06State.v: stable_sort_unique); an unstable sort, a heap or a parallel iterator is rejected. *)
+Definition order_site_ok (s : ssite) : bool := str_in (ss_kind s) ["sort_stable"; "dedup"; "binary_search"].
+
+(* The two dependencies whose order reaches the output (pinned by Cargo.lock, read from the offline registry):
+   simplecss  no shared state at all; the rules are sorted by specificity with a STABLE sort in parse_more
+   fontdb     file system / environment / mmap only inside the functions that BUILD a Database (the Database is an input
+              handed in through Options) or read the font file a face names (with_data); faces live in a SlotMap
+              (insertion order), no hash container among the fields *)
+Definition fontdb_input_fns : list string :=
+  ["load_font_file_impl"; "make_shared_face_data"; "with_data"; "load_system_fonts"; "load_no_fontconfig";
+   "load_fontconfig"; "load_fonts_dir_impl"; "canonicalize"].
+Definition dep_cell_class (s : ssite) : cls :=
+  if String.eqb (ss_file s) "fontdb/src/lib.rs"
+     && str_in (ss_kind s) ["unsafe"; "fs"; "read_dir"; "env"; "hash_mention"]
+     && (str_in (ss_fn s) fontdb_input_fns || has_sub "fn make_shared_face_data" (ss_text s))
+  then ExtInput else Mutable.
+Definition dep_site_ok (s : ssite) : bool := order_site_ok s || discharged (dep_cell_class s).
+Definition css_sort_is_stable : bool :=
+  existsb (fun s => String.eqb (ss_file s) "simplecss/src/lib.rs" && String.eqb (ss_kind s) "sort_stable"
+                    && String.eqb (ss_fn s) "parse_more" && has_sub "self.rules.sort" (ss_text s)) c06_dep_sites
+  && forallb (fun s => negb (String.eqb (ss_file s) "simplecss/src/lib.rs") || String.eqb (ss_kind s) "sort_stable") c06_dep_sites.
+Definition dep_fields_ok : bool :=
+  forallb (fun p => negb (has_sub "Hash" (snd (snd p)))) c06_dep_fields
+  && existsb (fun p => String.eqb (fst p) "fontdb::Database" && String.eqb (fst (snd p)) "faces" && String.prefix "SlotMap<" (snd (snd p))) c06_dep_fields
+  && existsb (fun p => String.eqb (fst p) "simplecss::StyleSheet" && String.eqb (fst (snd p)) "rules" && String.prefix "Vec<" (snd (snd p))) c06_dep_fields.
+Definition order_ledger_ok : bool :=
+  forallb order_site_ok c06_order_sites && forallb order_site_ok c06_bin_order_sites
+  && forallb dep_site_ok c06_dep_sites && css_sort_is_stable && dep_fields_ok
+  && Nat.eqb (length c06_dep_versions) 2.
 
 (* Hashers: DefaultHasher::new() (SipHash-1-3 with the constant keys 0,0) and the perfect-hash table of
    svgtree/names.rs (SipHasher13::new_with_keys(0, <static key>)).  RandomState / BuildHasher must not be named. *)
@@ -103,18 +148,16 @@ Definition gen_fns_ok : bool :=
      process  process::exit
      env      only the compile-time env!("CARGO_PKG_VERSION") of --version
      time     only in resvg's `timed` / `render_svg` (the --perf statistics, printed to stdout, never in the image) *)
-Definition has_sub (sub s : string) : bool :=
-  (fix go (n : nat) (t : string) : bool :=
-     match n with
-     | O => false
-     | S n' => String.prefix sub t || match t with EmptyString => false | String _ r => go n' r end
-     end) (S (String.length s)) s.
-Definition bin_ssite_ok (s : ssite) : bool :=
-  String.eqb (ss_kind s) "static"
-  || String.eqb (ss_kind s) "process"
-  || (String.eqb (ss_kind s) "env" && has_sub "env!(""CARGO_PKG_VERSION"")" (ss_text s))
-  || (String.eqb (ss_kind s) "time" && String.eqb (ss_file s) "crates/resvg/src/main.rs"
-      && str_in (ss_fn s) ["timed"; "render_svg"]).
+(*   fs       reading the input file / writing the output file named on the command line (the CLI's input and output) *)
+Definition bin_cell_class (s : ssite) : cls :=
+  if String.eqb (ss_kind s) "static" then ImmInit
+  else if String.eqb (ss_kind s) "process" then NotOutput
+  else if String.eqb (ss_kind s) "env" && has_sub "env!(""CARGO_PKG_VERSION"")" (ss_text s) then ImmInit
+  else if String.eqb (ss_kind s) "time" && String.eqb (ss_file s) "crates/resvg/src/main.rs"
+          && str_in (ss_fn s) ["timed"; "render_svg"] then NotOutput
+  else if String.eqb (ss_kind s) "fs" then ExtInput
+  else Mutable.
+Definition bin_ssite_ok (s : ssite) : bool := discharged (bin_cell_class s).
 Definition bin_ledger_ok : bool :=
   forallb (fun h => hsite_ok h && hsite_resolved h) c06_bin_hash_sites
   && forallb ctor_ok c06_bin_hash_ctor_sites
